@@ -21,6 +21,7 @@ func c14(c *Ctx) {
 	defer c14existingHidesDeletedSubscription(c)
 	defer c.mailboxNamesAreValidated("R14.11")
 	defer c.exactNoChangeTests("R14.12")
+	defer c14deletedSubscriptionMaskedByName(c)
 	P, R := c.P, c.R
 	R.Explain("R14.1", "pattern injection (T-SOURCE): every operand of regexp.Compile/MustCompile in the server packages is built only from constants and regexp.QuoteMeta results (string concatenation, fmt.Sprintf, strings.ReplaceAll of such parts); a raw configuration or client string in a pattern can make MustCompile panic or change the match.")
 	R.Explain("R14.2", "protection guards (T-DOM): handleCreate/handleDelete refuse INBOX (case-insensitively) before calling the state; the recovery mailbox guards of R20.3.")
